@@ -521,6 +521,74 @@ def scenarios(seed, rx, clause, func=""):
         yield ("plain", [[(rnd.choice(esc_dlci) if rnd.random() < 0.3 else rnd.choice(safe), payload(n)) for n in lens] for _ in range(rnd.randrange(1, 3))])
 
 
+def replay_rx_step(h, w, rx):
+    """A counter-model of the receive step contract is a receiver state (state, octets stored, dlci) and an octet.  It is executed on the real
+    code by driving the receiver into that state through sercomm_drv_rx_char() itself (the octet stream that leads there), feeding the octet,
+    and - when the stream is one a transmitter can produce - completing the frame and sending two more.  Judged at statement level only:
+    deliveries == spec.hdlc_wire.ideal_receive(stream) for well-formed streams of frames shorter than the buffer, the rules for over-long
+    frames otherwise, memory safety always.  -> replay result, or None when the state cannot be reached that way (RI violated)."""
+    st, ch, k, d = w.get("state"), w.get("ch"), w.get("stored", 0) or 0, w.get("dlci", 5)
+    if not all(isinstance(x, int) for x in (st, ch, k)) or not (0 <= ch <= 255) or not (0 <= st <= 6) or not (0 <= k <= rx):
+        return None
+    d = d if isinstance(d, int) and 0 <= d < 128 else 5
+    esc = lambda b: [W.ESCAPE, b ^ 0x20] if W.needs_escape(b) else [b]
+    if st in (0, 1, 5, 2, 6) and k != 0:
+        return None
+    body = [0x41 + (i % 23) for i in range(k)]
+    prefix = {0: [], 1: [W.FLAG], 5: [W.FLAG, W.ESCAPE], 2: [W.FLAG] + esc(d), 6: [W.FLAG] + esc(d) + [W.ESCAPE],
+              3: [W.FLAG] + esc(d) + [W.CTRL_UI] + body, 4: [W.FLAG] + esc(d) + [W.CTRL_UI] + body + [W.ESCAPE]}[st]
+    inv = (0x5E, 0x5D, 0x20)
+    wellformed = {0: True, 1: ch not in (W.FLAG, 0), 5: ch in inv, 2: ch not in (W.FLAG, 0), 6: ch in inv, 3: ch != 0, 4: ch in inv}[st]
+    stream = prefix + [ch]
+    closed = (st == 3 and ch == W.FLAG) or st == 0 and ch != W.FLAG
+    if wellformed and not closed:
+        # complete the frame the way a transmitter would
+        tail = []
+        pending_escape = (ch == W.ESCAPE and st in (1, 2, 3))
+        if pending_escape:
+            tail.append(0x5E)
+        seen = {0: 0, 1: 1, 5: 1, 2: 2 if not pending_escape else 2, 6: 2, 3: 3, 4: 3}[st]     # header octets conveyed after `ch` (1: address, 2: control)
+        if st == 1 and ch == W.ESCAPE:
+            seen = 1
+        if st == 2 and ch == W.ESCAPE:
+            seen = 2
+        if st == 0:
+            tail += esc(d) + [W.CTRL_UI]
+        elif seen == 1:
+            tail += [W.CTRL_UI]
+        tail += [0x51, 0x52, W.FLAG]
+        stream += tail
+    p1, p2 = (6, [0x70, 0x72, 0x6F]), (7, [0x62, 0x65, 0x7E, 0x00])
+    stream2 = stream + W.frame(*p1) + W.frame(*p2)
+    obs = run_script(h, ["feed " + hexs(stream2), "state"])
+    info = {"receiver_driven_to": {"state": st, "stored": k, "dlci": d}, "octet": ch, "stream_len": len(stream2), "stream_head": hexs(stream2[:24]), "stream_tail": hexs(stream2[-24:]),
+            "well_formed_stream": wellformed}
+    bad = []
+    if obs.get("error"):
+        return {"confirmed": False, "error": "harness build failed"}
+    if obs.get("sanitizer"):
+        bad.append("sanitizer: %s" % obs["sanitizer"])
+    if obs.get("panic"):
+        bad.append("osmo_panic() called (msgb abort: store beyond the receive buffer)")
+    if not obs.get("completed"):
+        bad.append("harness did not complete (rc %s)" % obs.get("rc"))
+    got = obs.get("deliveries", [])
+    if wellformed and not bad:
+        exp = W.ideal_receive(stream2)
+        long_ = [x for x in exp if len(x[1]) >= rx]
+        if not long_:
+            if got != exp:
+                bad.append("deliveries differ from the ideal receiver: expected %s, observed %s" % ([(a, hexs(b[:8]), len(b)) for a, b in exp[:4]], [(a, hexs(b[:8]), len(b)) for a, b in got[:4]]))
+        else:
+            if any(len(x[1]) > rx for x in got):
+                bad.append("over-long frame delivered")
+            if p2 not in got:
+                bad.append("second frame after the over-long one not delivered")
+    return {"confirmed": bool(bad), "found_by": "model (receiver driven into the counter-model's state through its own input)", "observed": bad or "behaves as the statement prescribes",
+            "deliveries_observed": [(a, hexs(b[:12]), len(b)) for a, b in got[:5]], "executed": info,
+            "expected": "deliveries == ideal receiver of spec/hdlc_wire.py (well-formed stream), over-long rules, no sanitizer report / panic"}
+
+
 def replay_c(payload):
     """Native replay: host harness = the real sercomm.c (#include) + bundled libosmocore msgb.c/talloc.c, ASan+UBSan.  The prescribed behaviour is
     computed from spec/hdlc_wire.py for the CONCRETE messages; a message taken from the model is used only if it lies inside the statement's
@@ -536,6 +604,13 @@ def replay_c(payload):
             return {"confirmed": False, "error": "harness build failed", "detail": probe["detail"].get("build_error", "")[-1500:], "cmd": h.cmd}
         if probe.get("rx_size") != rx:
             return {"confirmed": False, "error": "harness receive buffer is %r, the obligation is about %r" % (probe.get("rx_size"), rx)}
+        if w.get("func") in ("sercomm_drv_rx_char", "msgb_put", "msgb_tailroom", "dispatch_rx_msg", "sercomm_alloc_msgb") and "state" in w and "ch" in w:
+            res = replay_rx_step(h, w, rx)
+            if res is not None and (res.get("confirmed") or res.get("error")):
+                return res
+            step_executed = res
+        else:
+            step_executed = None
         msg = model_message(w, rx)
         tried = 0
         if msg is not None:
@@ -579,7 +654,9 @@ def replay_c(payload):
                         "script_head": [s[:80] for s in script[:6]], "cmd": h.cmd}
         res = {"confirmed": False, "precondition_met_by_model_input": msg is not None,
                "note": "%d scenarios inside the statement's quantifier behaved as prescribed" % tried, "cmd": h.cmd}
-        if msg is None:
+        if step_executed is not None:
+            res.update(executed=step_executed.get("executed"), counter_model_executed="receiver driven into the counter-model's state and fed its octet: behaves as the statement prescribes")
+        elif msg is None:
             # a counter-model of a step contract (a receiver / transmitter state) or one outside the quantifier was NOT executed: the scenarios
             # above are a search, not a refutation of this counter-model
             res["error"] = "counter-model not executed natively (a step-level state or a message outside the statement's quantifier); %d seeded scenarios behaved as prescribed" % tried
